@@ -457,27 +457,27 @@ impl<'a> Checker<'a> {
 
     /// regret matching as a relation: is `next` an allowed strategy for cumulative regrets `reg`
     /// (`reg_post` = the same regrets after discounting, accepted as softmax input as well)
-    fn rm_ok(&mut self, reg: &[f64], reg_post: &[f64], next: &[f64]) -> Result<(), String> {
+    fn rm_ok(&mut self, reg: &[f64], reg_post: &[f64], next: &[f64], nat: f64) -> Result<(), String> {
         let n = reg.len();
         let pos: f64 = reg.iter().filter(|v| **v > 0.0).sum();
-        let maxabs = reg.iter().fold(0.0f64, |m, v| m.max(v.abs()));
-        if maxabs > 0.0 {
-            // distance from the "no positive regret" discontinuity and from arg-max ties
-            let mut margin = if pos > 0.0 { pos / maxabs } else { f64::INFINITY };
-            if !(pos > 0.0) && self.par.weight.is_infinite() {
-                let mut sorted: Vec<f64> = reg.to_vec();
-                sorted.sort_by(|a, b| b.partial_cmp(a).unwrap());
-                let gap = if self.par.weight > 0.0 { sorted[0] - sorted[1] } else { sorted[n - 2] - sorted[n - 1] };
-                margin = margin.min(gap / maxabs);
-            }
-            if !(pos > 0.0) {
-                let closest = reg.iter().fold(f64::INFINITY, |m, v| m.min(v.abs()));
-                margin = margin.min(closest / maxabs);
-            }
-            self.stats.min_margin = self.stats.min_margin.min(margin);
+        // Distance of this regret vector from a discontinuity of regret matching, relative to the
+        // natural magnitude `nat` of regrets at this infoset (payoff scale x nodes). The map is
+        // continuous where the positive part is non-zero, but its sensitivity is 1/pos: when pos is
+        // at rounding-noise level (exact mathematical ties) the direction of the positive part is
+        // decided by summation order. Without positive regrets the nearest discontinuities are
+        // the largest regret reaching zero and (for infinite weights) ties for the arg-max/min.
+        let mut margin = if pos > 0.0 {
+            pos / nat
         } else {
-            self.stats.min_margin = 0.0;
+            reg.iter().fold(f64::INFINITY, |m, v| m.min(v.abs())) / nat
+        };
+        if !(pos > 0.0) && self.par.weight.is_infinite() && n >= 2 {
+            let mut sorted: Vec<f64> = reg.to_vec();
+            sorted.sort_by(|a, b| b.partial_cmp(a).unwrap_or(std::cmp::Ordering::Equal));
+            let gap = if self.par.weight > 0.0 { sorted[0] - sorted[1] } else { sorted[n - 2] - sorted[n - 1] };
+            margin = margin.min(gap / nat);
         }
+        self.stats.min_margin = self.stats.min_margin.min(margin);
         if pos > 0.0 {
             self.stats.proportional_steps += 1;
             for (r, s) in reg.iter().zip(next.iter()) {
@@ -734,7 +734,9 @@ impl<'a> Checker<'a> {
                     }
                 }
                 // next strategy
-                if let Err(msg) = self.rm_ok(&q.cum_regret, &r.cum_regret, &r.strat) {
+                let nodes = self.flat.info_nodes[p][self.al.info[p][di]].len() as f64;
+                let nat = self.scale * nodes.max(1.0) * if self.method == Method::External { 1.0 } else { 1.0 };
+                if let Err(msg) = self.rm_ok(&q.cum_regret, &r.cum_regret, &r.strat, nat) {
                     return fail("advance:regret-matching", format!("iteration {} player {} infoset {}: {}", t, p + 1, di, msg));
                 }
                 // average strategy discounted by (m/(m+1))^gamma, m = completed accumulation batches
